@@ -43,7 +43,7 @@ CHECKS = {
  "C10": dict(engine="seq", level="exploration", ref="DESIGN.md 5 C10",
    technique=TECH + "independent decoder of the documented layout applied to the durable image at every acknowledged flush",
    text="After each acknowledged flush of seeded workloads on v1, v2 and v3 devices the durable image (what survives power loss) is decoded by a reader written from the documented layout only; it must contain exactly the model's keys with value, timestamp and expiry, a clear journal and metadata counters equal to the live totals; legacy devices must keep their own record format.",
-   note="Decoder shares no code with the crate; symmetric encoder/decoder changes are additionally covered by golden files (when present)."),
+   note="Decoder shares no code with the crate. Stage 2 (golden): device files written by the pinned release (v3 created by it; v1/v2 empty legacy devices written to by it in compatibility mode; /verif/golden with expected contents) are decoded independently, opened on the current tree, compared, written to and re-decoded (format version and untouched records must be preserved). Stage 3: legacy images produced by the independent writer and by simulated compatibility-mode workloads are opened and migrated (migr engine)."),
  "C11": dict(engine="seq", level="exploration", ref="DESIGN.md 5 C11",
    technique=TECH + "virtual clock positioned exactly at expiry-1/expiry/expiry+1 against the reference model",
    text="TTL workloads with the simulator owning the clock: the wall clock is set exactly to expiry-1, expiry and expiry+1 of model keys, jumped forwards/backwards, and every value-reading call must see the key iff now <= expiry; absolute expiry must be unchanged by flush and clean restart; TTL-only updates on offloaded keys keep the value.",
@@ -80,6 +80,10 @@ CHECKS = {
    technique=TECH + "differential execution of the same tape with cache on and off under a frozen clock",
    text="The same operation tape is executed twice inside one simulated run, cache on and cache off, with the wall clock frozen so results are a function of the tape alone; the two result sequences must be identical call by call.",
    note="Stage 1 = part (a) differential; stage 2 = part (b): concurrent readers/writers on offloaded keys with the cache on (a stale hit is a read of a generation that was not current during the call). Stage 3 = part (c): ClockCache alone with 1 MB / 0-1 MB watermarks and 1 KB-500 KB values, sequentially against a model (exact accounting via the entry observer, no hit after remove, eviction reaches the low watermark, referenced entries survive when unreferenced ones suffice) and under 2-3 threads (accounting at quiescence, only genuine values)."),
+ "C20": dict(engine="conc+cache+fault+corr+crash (AddressSanitizer build)", level="exploration", ref="DESIGN.md 5 C20",
+   technique=TECH + "the concurrent, cache, fault, corruption and crash engines re-executed from the same seeds in a build instrumented with AddressSanitizer",
+   text="`./check C20` builds the same harness crate a second time with `cargo +nightly -Zsanitizer=address` (feoxdb and every dependency instrumented, system allocator) and re-runs range scans racing updates/deletes with a yield between slot load and use (conc:C14), shared-key histories (conc:C07), readers against flush/retirement/reuse on tiny devices (conc:C08), the sweeper against writers (conc:C11), the CLOCK cache under 2-3 threads (cache), failed and short device writes (fault), damaged images with forged lengths (corr) and crash recoveries (crash). Oracle: no AddressSanitizer report, no abnormal termination; a worker that dies is attributed to its run, the run is re-executed from its seed in a fresh process and reported with the sanitizer's report.",
+   note="Not exercised: the io_uring submission/completion code and the O_DIRECT aligned-buffer paths (InFlightBuffers, AlignedBuffer) - the simulated device uses the synchronous fallback; std itself is not instrumented; preemption only at seams."),
 }
 
 NOT_APPLICABLE = {
